@@ -96,12 +96,23 @@ func filledFromOneFile(info *types.Info, fi *FuncInfo, coll ast.Expr) bool {
 		napp++
 		guarded := false
 		for _, c := range pathConds(fi.Decl, as) {
-			if c.expr == nil || c.exit == nil {
+			if c.expr == nil {
 				continue
 			}
-			s := es(c.expr)
-			if strings.Contains(s, ".Position(") && strings.Contains(s, ".Filename") && !c.truth {
-				if be, ok := c.expr.(*ast.BinaryExpr); ok && be.Op == token.NEQ {
+			// "the file of the element is the file asked for", however it is reached: a negated early exit on `!=`, an
+			// enclosing `if … == …`, the file name read directly or through a local bound once to it
+			be, ok := ast.Unparen(c.expr).(*ast.BinaryExpr)
+			if !ok || (be.Op != token.NEQ && be.Op != token.EQL) || (be.Op == token.EQL) != c.truth {
+				continue
+			}
+			for _, side := range []ast.Expr{be.X, be.Y} {
+				s := es(side)
+				if sid := identOf(side); sid != nil {
+					if ds := defsIn(info, fi.Decl, objOf(info, sid)); len(ds) == 1 {
+						s = es(ds[0])
+					}
+				}
+				if strings.Contains(s, ".Position(") && strings.HasSuffix(s, ".Filename") {
 					guarded = true
 				}
 			}
